@@ -7,7 +7,7 @@ from harness import vloop
 HANDSHAKE = ["CONNECTION_GOT_FIRMWARE_VERSION", "CONNECTION_GOT_CHANNEL", "CONNECTION_GOT_CONFIG_FILES",
              "CONNECTION_INITIAL_DATA_BLOCK_REQUEST", "CONNECTION_SPA_COMPLETE"]
 EXT = ["RUNNING_PING_RECEIVED", "RUNNING_PING_MISSED", "RUNNING_PING_NO_RESPONSE", "ERROR_RF_ERROR", "ERROR_TOO_MANY_RF_ERRORS",
-       "ERROR_PROTOCOL_RETRY_COUNT_EXCEEDED", "RUNNING_SPA_PACK_REFRESHED", "RUNNING_SPA_WATER_CARE_ERROR"]
+       "ERROR_PROTOCOL_RETRY_COUNT_EXCEEDED", "RUNNING_SPA_PACK_REFRESHED", "RUNNING_SPA_WATER_CARE_ERROR", "CONNECTION_PROTOCOL_RETRY_COUNT_EXCEEDED"]
 
 
 class Rig:
